@@ -624,8 +624,12 @@ archive_format_gnutar_header(struct archive_write *a, char h[512],
 		copy_length = gnutar->uname_length;
 	}
 	if (copy_length > 0) {
-		if (copy_length > GNUTAR_uname_size)
+		if (copy_length > GNUTAR_uname_size) {
+			archive_set_error(&a->archive, ARCHIVE_ERRNO_MISC,
+			    "Username too long");
+			ret = ARCHIVE_WARN;
 			copy_length = GNUTAR_uname_size;
+		}
 		memcpy(h + GNUTAR_uname_offset, p, copy_length);
 	}
 
@@ -638,8 +642,12 @@ archive_format_gnutar_header(struct archive_write *a, char h[512],
 		copy_length = gnutar->gname_length;
 	}
 	if (copy_length > 0) {
-		if (strlen(p) > GNUTAR_gname_size)
+		if (strlen(p) > GNUTAR_gname_size) {
+			archive_set_error(&a->archive, ARCHIVE_ERRNO_MISC,
+			    "Group name too long");
+			ret = ARCHIVE_WARN;
 			copy_length = GNUTAR_gname_size;
+		}
 		memcpy(h + GNUTAR_gname_offset, p, copy_length);
 	}
 
